@@ -183,6 +183,7 @@ type agg struct {
 	bootFailures  int
 	shapes        map[string]bool
 	knownHits     map[string]int
+	fixedReplayed int
 	procs         int
 }
 
